@@ -24,15 +24,16 @@ def generate(ctx):
 def run(ctx):
     ctx.level = "proof"
     ctx.assumptions += [
-        "Keccak-256, go-ethereum's trie.VerifyProof / light.NodeSet, rlp and encoding/json are external: parameters in the theorems, "
+        "Keccak-256, go-ethereum's trie.VerifyProof / light.NodeSet and rlp are external: parameters in the theorems, "
         "oracle values in the correspondence (computed with the same libraries, re-computed by Exec)",
-        "json.Unmarshal of the proof is not modelled: the model receives the unmarshalled fields (or 'malformed'); the harness marshals the same fields",
+        "json.Unmarshal of the proof is modelled (Poly/Model/ProofJson.lean) for ASCII input: the model receives the raw JSON text; Unicode key "
+        "folding, UTF-8 repair and the re-use of slice elements by duplicate array-valued keys are outside the model and not generated",
         "the light-client state under the check is the C27 model state (built by the same genesis/sync ops)",
-        "the seven sibling routers (bsc, heco, hsc, msc, pixiechain, polygon/bor, bytom) are tied by (T) the clone table of extract/evmclones "
-        "(their three functions equal the reference's after normalisation) and (C) executing their real verifyFrom*Tx on a mirror of the eth "
-        "light-client state (their stores' own records written by the harness) for every deposit, with the eth verdict as expectation; "
-        "their header stores themselves (C29) are not exercised; quorum: only verifyFromQuorumTx (proof check against the supplied header's "
-        "root) is modelled and executed, its validator-signature header check is C29/C30",
+        "the seven sibling routers are tied by (T) the clone table of extract/evmclones and (C) executing their real verifyFrom*Tx for every "
+        "deposit with the eth verdict as expectation: bsc, bytom, heco, hsc, pixiechain on a header store built by their own SyncGenesisHeader / "
+        "SyncBlockHeader (really sealed single-validator chains of the same shape), msc and polygon on their stores' own records mirrored from "
+        "the eth state; quorum: verifyFromQuorumTx and the whole MakeDepositProposal are executed with a really signed Istanbul header; the "
+        "validator-signature rules of those light clients are C29/C30",
     ]
     ctx.cov["trusted_base"] += ["extract/evmclones (go/parser clone check of the sibling routers)", "harness heth/evm + drv_eth (correspondence check)", "Lean compiler for the driver",
                                 "go-ethereum v1.9.15 trie / rlp / crypto (oracles and property evaluation)",
